@@ -309,7 +309,10 @@ private:
                 // If sigma * |A[k, k]| >= alpha * lambda^2, no need to interchange
                 if (sigma * abs_akk < alpha * lambda * lambda)
                 {
-                    if (abs_akk >= alpha * sigma)
+                    // Bunch-Kaufman test for a 1x1 pivot after interchanging k and r:
+                    // |A[r, r]| >= alpha * sigma. Testing |A[k, k]| instead allows
+                    // a singular 2x2 pivot block on a nonsingular matrix
+                    if (abs(diag_coeff(r)) >= alpha * sigma)
                     {
                         // Permutation on A
                         pivoting_1x1(k, r);
